@@ -94,7 +94,8 @@ class Evaluator(object):
     """
 
     def __init__(self, module, clsname=None, methods=None, functions=None,
-                 is_subclass=None, max_steps=20000, class_methods=None):
+                 is_subclass=None, max_steps=20000, class_methods=None,
+                 class_own=None, class_bases=None):
         self.module = module
         self.clsname = clsname
         self.methods = methods or {}
@@ -106,6 +107,10 @@ class Evaluator(object):
         self.iter_hook = None
         # cls name -> {method name -> FunctionDef} for stand-in objects
         self.class_methods = class_methods or {}
+        # for super(): cls -> own methods, cls -> base class names
+        self.class_own = class_own or {}
+        self.class_bases = class_bases or {}
+        self._callstack = []
 
     # ------------------------------------------------------------------
 
@@ -134,6 +139,7 @@ class Evaluator(object):
                     fdef.name, n))
         saved = self.yielded
         self.yielded = []
+        self._callstack.append(fdef)
         try:
             try:
                 self.block(fdef.body, env)
@@ -143,7 +149,21 @@ class Evaluator(object):
             ys = self.yielded
         finally:
             self.yielded = saved
+            self._callstack.pop()
         return ret, ys
+
+    def _super_lookup(self, owner, name):
+        todo = list(self.class_bases.get(owner, []))
+        seen = set()
+        while todo:
+            c = todo.pop(0)
+            if c in seen:
+                continue
+            seen.add(c)
+            if name in self.class_own.get(c, {}):
+                return self.class_own[c][name]
+            todo = list(self.class_bases.get(c, [])) + todo
+        return None
 
     def err(self, node, msg):
         raise AnalysisError('abstract evaluation: %s: %s (line %s)' % (
@@ -294,6 +314,11 @@ class Evaluator(object):
 
     def x_Attribute(self, e, env):
         base = self.expr(e.value, env)
+        if isinstance(base, tuple) and base and base[0] == 'super':
+            fd = self._super_lookup(base[2], e.attr)
+            if fd is None:
+                self.err(e, 'super() has no attribute')
+            return ('method', fd, base[1])
         if isinstance(base, Obj):
             if base.has(e.attr):
                 return getattr(base, e.attr)
@@ -477,6 +502,16 @@ class Evaluator(object):
             n = e.func.id
             if n == 'isinstance' and n not in env:
                 obj = self.expr(e.args[0], env)
+                targ = e.args[1]
+                tnodes = targ.elts if isinstance(targ, ast.Tuple) else [targ]
+                if isinstance(obj, Obj) and all(isinstance(
+                        t, (ast.Name, ast.Attribute)) for t in tnodes):
+                    # class names are taken from the syntax (they may be
+                    # shadowed by stand-in constructors)
+                    cls = obj.__dict__['_cls']
+                    names = [t.id if isinstance(t, ast.Name) else t.attr
+                             for t in tnodes]
+                    return any(self.is_subclass(cls, nm) for nm in names)
                 types = self.expr(e.args[1], env)
                 if not isinstance(types, tuple):
                     types = (types,)
@@ -498,6 +533,22 @@ class Evaluator(object):
                 return len(self.expr(e.args[0], env))
             if n == 'bool' and n not in env:
                 return self.truth(self.expr(e.args[0], env), e)
+            if n == 'super' and n not in env and self._callstack:
+                cur = self._callstack[-1]
+                owner = None
+                for c, ms in self.class_own.items():
+                    if any(fd is cur for fd in ms.values()):
+                        owner = c
+                if owner is None or 'self' not in env:
+                    self.err(e, 'super() outside a known class')
+                return ('super', env['self'], owner)
+            if n == 'hasattr' and n not in env and \
+                    n not in self.functions:
+                obj = self.expr(e.args[0], env)
+                name = self.expr(e.args[1], env)
+                if isinstance(obj, Obj):
+                    return obj.has(name)
+                return hasattr(obj, name)
         f = self.expr(e.func, env)
         args = []
         for a in e.args:
